@@ -29,6 +29,7 @@ ASSUMPTIONS = [
 REQUIRED_COUNTERS = ["kernels_measured", "conservation_checks", "coarse_drift_checks", "coarse_diffusion_checks",
                      "coupled_paths_replayed", "nd_kernels_measured", "infinite_variation_copula_chains"]
 MIN_NONTRIVIAL = {"quick": 30, "thorough": 250}
+THOROUGH_ROUNDS = 2      # the thorough tier runs the generators this many times (different seeds)
 SHARD_TIMEOUT = {"quick": 900, "thorough": 7200}
 
 
